@@ -45,13 +45,17 @@ implement ToString for Pt {
 CONTEXTS = ["fn", "lambda", "task", "while", "for", "arm", "if", "block",
             # expression positions of statements (nothing is on the operand stack there): the
             # checker and the code generator must agree on which loop / function encloses them
-            "whilecond", "foriter", "ifcond", "scrut", "letinit"]
+            "whilecond", "foriter", "ifcond", "scrut", "letinit",
+            # top-level items: a generic function called at string, void and array; a member function;
+            # a parameter's default value (evaluated in the CALLER's frame)
+            "gfn", "method", "dflt"]
+TOP_KINDS = ("fn", "gfn", "method", "dflt")
 
 
 def wrap(kind, k, inner):
     """-> (definition lines placed here, statements placed here) the wrapped code introduces `v<k>`"""
     ind = "\n".join("  " + l for l in inner.split("\n"))
-    if kind == "fn":
+    if kind in TOP_KINDS:
         # a named function can only be declared at top level: lifted by the assembler
         return None
     if kind == "lambda":
@@ -119,6 +123,17 @@ def payloads(depth):
             ("assign-nested" + op, "let ps = [Pt(4, 5)]\nps[0].y %s 2\nprintln(ps[0].y)" % op, 0),
             ("assign-userindex" + op, "let mp: map<int, int> = map.new()\nmp[1] = 7\nmp[1] %s 2\nprintln(mp[1])" % op, 0),
         ]
+    # the value of a type variable of the nearest enclosing generic function ({g}: only inside `gfn`)
+    P += [
+        ("generic-local", "let w = {g}\nprintln(1)", 0),
+        ("lambda-capture-generic", "let q = (z: int) -> {\n  let w = {g}\n  z + 1\n}\nprintln(q(1))", 0),
+        ("nested-lambda-generic", "let q = () -> {\n  let r = () -> {\n    let w = {g}\n    2\n  }\n  r()\n}\nprintln(q())", 0),
+        ("task-capture-generic", "let dg: channel<int> = channel()\ntask {\n  let w = {g}\n  dg.write(1)\n}\nprintln(dg.read())", 0),
+        ("task-in-lambda-generic", "let q = (z: int) -> {\n  let dg: channel<int> = channel()\n  task {\n    let w = {g}\n    dg.write(z)\n  }\n  dg.read()\n}\nprintln(q(3))", 0),
+        ("array-of-generic", "let ar = [{g}, {g}]\nprintln(ar.len())", 0),
+        ("option-of-generic", "let og = option.some({g})\nmatch og {\n  .some(w) -> println(1)\n  .none -> println(0)\n}", 0),
+        ("generic-through-channel", "let cg = channel()\ncg.write({g})\nlet back = cg.read()\nprintln(2)", 0),
+    ]
     for name, e in [("num-add", "Pt(1, 2) + Pt(3, 4)"), ("num-sub", "Pt(1, 2) - Pt(3, 4)"), ("num-mul", "Pt(1, 2) * Pt(3, 4)"),
                     ("num-div", "Pt(4, 2) / Pt(2, 1)"), ("num-pow", "Pt(1, 2) ^ Pt(2, 2)")]:
         P.append((name, "println(%s)" % e, 0))
@@ -136,14 +151,29 @@ def build(chain, payload):
     for d in range(0, 3):
         idx = n - 1 - d
         code = code.replace("{v%d}" % d, "v%d" % idx if idx >= 0 else "vtop")
+    if "{g}" in code:
+        gk = [i for i in range(n) if chain[i] == "gfn"]
+        if not gk:
+            return None
+        code = code.replace("{g}", "gw%d" % gk[-1])
     body = code
     tops = []
     for k in range(n - 1, -1, -1):
         kind = chain[k]
+        ind = "\n".join("  " + l for l in body.split("\n"))
         if kind == "fn":
-            ind = "\n".join("  " + l for l in body.split("\n"))
             tops.append("fn fu%d(a%d: int) -> int {\n  var v%d = a%d + %d\n%s\n  v%d\n}\n" % (k, k, k, k, k, ind, k))
             body = "println(fu%d(%d))" % (k, k)
+        elif kind == "gfn":
+            tops.append("fn gfu%d(a%d: int, gq%d: T) -> int {\n  var v%d = a%d + %d\n  let gw%d = gq%d\n%s\n  v%d\n}\n" % (k, k, k, k, k, k, k, k, ind, k))
+            body = "println(gfu%d(%d, \"s\"))\nprintln(gfu%d(%d, nil))\nprintln(gfu%d(%d, [%d]))" % (k, k, k, k, k, k, k)
+        elif kind == "method":
+            ind2 = "\n".join("  " + l for l in ind.split("\n"))
+            tops.append("extend Pt {\n  fn me%d(self, a%d: int) -> int {\n    var v%d = a%d + self.x\n%s\n    v%d\n  }\n}\n" % (k, k, k, k, ind2, k))
+            body = "println(Pt(1, 2).me%d(%d))" % (k, k)
+        elif kind == "dflt":
+            tops.append("fn df%d(a%d: int = {\n  var v%d = %d\n%s\n  v%d\n}) -> int = a%d\n" % (k, k, k, k, ind, k, k))
+            body = "println(df%d())\nprintln(df%d(5))" % (k, k)
         else:
             body = wrap(kind, k, body)
     return DECLS + "".join(reversed(tops)) + "var vtop = 9\n" + body + "\n"
@@ -153,6 +183,8 @@ def judge(res):
     cr = vlib.crash_of(res)
     if cr:
         return ("abort", cr[1])
+    if res.get("timeout") and "check" not in res:
+        return ("no-termination", "neither a diagnostic nor bytecode: check / compile_bytecode did not return within the watchdog")
     c, k = res.get("check", {}), res.get("compile", {})
     if c.get("panic"):
         return ("check-panic", "the checker panicked: %s" % c["panic"])
@@ -193,8 +225,12 @@ def run(ctx):
                 continue
             progs.append((c, p))
     jobs, meta = [], {}
-    for n, (c, p) in enumerate(progs):
+    built = []
+    for (c, p) in progs:
         src = build(c, p)
+        if src is not None:
+            built.append((c, p, src))
+    for n, (c, p, src) in enumerate(built):
         key = "chain=%s payload=%s" % (">".join(c), p[0])
         jid = "n%06d" % n
         jobs.append({"id": jid, "mode": "checkcompile", "std": True, "files": {"main.abra": src}})
